@@ -118,6 +118,16 @@ FIXED = {
    ("C07", "a reader that validates the terminator (libarchive's bsdtar, added to C07 as an optional third-party decoder) does not recognise the volume and finds no entry in either hierarchy", "tree-mismatch-third-party-reader random / deep / wide")],
  "a PARAM.SFO value is read in full": [
    ("C08", "TITLE_ID stored in string format 0x0004 (not NUL-terminated, length = characters): the last character was dropped, sector 1 carried 'BCES-0010 ' instead of 'BCES-00104'", "V11 shape:sfo-titleid-format-0004")],
+ "a named pipe in the place of a key file is refused as well": [
+   ("C04", "second bug-hunt round: the special-file refusal covered the requested path only; with a FIFO named like the image's .dkey (beside it or in REDKEY) OPEN of the image blocked for ever in the key lookup", "neither-answered-nor-closed shape/fifo as adjacent key file, fifo as REDKEY key file")],
+ "a plain region of one sector is a valid region": [
+   ("C10", "tables with a plain region {s,s} (the end is the region's last sector; with {0,0} first the encrypted data starts at sector 1, a case the quantifier names) were rejected as 'end less than start'; the check had declared such tables unjudged", "valid-table-rejected one-sector-plain")],
+ "rmdir refuses symbolic links, delete-file never removes the served root": [
+   ("C05", "regression/gap of the delete/rmdir fix: its lstat helper never saw an Lstater (fs.FS embeds the afero.Fs interface) and followed links, so RMDIR on a link to a directory removed the link and answered 0; with the link visible, DELETE '' on a symlinked served root would unlink the root's link (caught by the symlinked-root scenario while fixing)", "remove-truth RMDIR-symlink; remove-root symlinked-root")],
+ "dir-size skips symbolic links that lead nowhere": [
+   ("C06", "regression of the dir-size fix: a symbolic link through a regular file (ENOTDIR), to itself (ELOOP) or to an over-long name made DIRSIZE answer -1 for its directory and all ancestors, while listings and stat omit such links as dangling", "dirsize plain-path DIRSIZE /tNNNN_links answered -1")],
+ "the size check of a tree does not wrap for a member of nearly 2^63 bytes": [
+   ("C04", "regression/gap of the tree-size fix: (size+2047)/2048 wraps for a sparse member of more than MaxInt64-2047 bytes (tmpfs/xfs/btrfs accept it), the member passed the refusal and the builder allocated without bound: out of memory in the server and in make-iso (probed in a child process under an address-space cap, tree on /dev/shm)", "process-died huge-member; cli-crash make-iso: huge-member")],
  "decrypt 3k3y also removes the watermark": [
    ("C20", "decrypt 3k3y output kept watermark+key with a cleared region table: placed under a served root it could not be opened (second transformation attempted)", "serve-back-failed 3k3y-from-PS3ISO / 3k3y-from-GAMES")],
 }
